@@ -30,6 +30,31 @@ _CAT_RE = {
 }
 
 
+_NODE_RX = {}
+_FLAGS_OK = re.MULTILINE | re.UNICODE | re.DOTALL | re.IGNORECASE | re.ASCII
+
+
+def node_pred(node, flags):
+    """predicate of a single-character regex node (LITERAL / NOT_LITERAL / ANY / IN), answered by CPython: the node is
+    compiled on its own with the pattern's flags, so IGNORECASE / ASCII / DOTALL behave exactly as in `re`"""
+    key = (id(node[1]) if node[0] is C.IN else node[1], node[0], flags)
+    r = _NODE_RX.get(key)
+    if r is None:
+        import re._compiler as K
+        # str patterns are UNICODE patterns unless re.ASCII is given (re._parser.fix_flags)
+        cflags = flags if flags & re.ASCII else flags | re.UNICODE
+        st = sre_parse.State()
+        st.flags = cflags
+        rx = K.compile(sre_parse.SubPattern(st, [node]), cflags)
+        r = _NODE_RX[key] = (lambda ch, rx=rx: rx.fullmatch(ch) is not None, node)
+    return r[0]
+
+
+def check_flags(flags):
+    if flags & ~_FLAGS_OK:
+        raise Unsupported(f"regex flags {flags}")
+
+
 _CP = {}
 
 
@@ -63,41 +88,165 @@ def _class_pred(items):
 
 class SFindIter:
     _mutable_ = True
-    __slots__ = ("pattern", "string", "flags", "pos")
+    __slots__ = ("pattern", "string", "flags", "pos", "must_advance")
 
     def __init__(self, pattern, string, flags):
         if not isinstance(pattern, str):
             raise Unsupported("compiled / symbolic regex pattern")
         self.pattern, self.string, self.flags, self.pos = pattern, string, flags, 0
-        if flags & ~(re.MULTILINE | re.UNICODE):
-            raise Unsupported(f"regex flags {flags}")
+        check_flags(flags)
         parsed(pattern, flags)
+        self.must_advance = False
 
     def progress_pos(self):
         return self.pos
 
     def next_item(self, I, W):
-        cs = chars(self.string)
-        n = len(cs)
-        prog = parsed(self.pattern, self.flags)
-        M = Matcher(I, W, cs, self.flags)
-        p = self.pos
-        while p <= n:
-            r = M.seq(list(prog), 0, p, (), lambda p2, g: (p2, g))
-            if r is not None:
-                end, groups = r
-                if end == p:
-                    raise Unsupported("empty regex match")
-                gl = [None] * prog.state.groups
-                for gid, span in groups:
-                    gl[gid] = span
-                self.pos = end
-                W.mut += 1
-                return True, SMatch(self.string, p, end, gl[1:], dict(prog.state.groupdict))
-            p += 1
-        self.pos = n + 1
+        m = next_match(I, W, self.pattern, self.string, self.flags, self.pos, self.must_advance)
         W.mut += 1
-        return False, None
+        if m is None:
+            self.pos = len(chars(self.string)) + 1
+            return False, None
+        self.pos = m.e
+        self.must_advance = m.e == m.s
+        return True, m
+
+
+def next_match(I, W, pattern, string, flags, pos, must_advance):
+    """first match starting at or after pos; an empty match is not accepted at pos itself when the previous match was
+    empty and ended there (CPython >= 3.7: `must_advance`)"""
+    cs = chars(string)
+    n = len(cs)
+    prog = parsed(pattern, flags)
+    M = Matcher(I, W, cs, flags)
+    p = pos
+    while p <= n:
+        if must_advance and p == pos:
+            r = M.seq(list(prog), 0, p, (), lambda p2, g: (p2, g) if p2 > p else None)
+        else:
+            r = M.seq(list(prog), 0, p, (), lambda p2, g: (p2, g))
+        if r is not None:
+            end, groups = r
+            gl = [None] * prog.state.groups
+            for gid, span in groups:
+                gl[gid] = span
+            return SMatch(string, p, end, gl[1:], dict(prog.state.groupdict))
+        p += 1
+    return None
+
+
+def all_matches(I, W, pattern, string, flags, limit=0):
+    check_flags(flags)
+    out = []
+    pos, adv = 0, False
+    n = len(chars(string))
+    while pos <= n and (not limit or len(out) < limit):
+        m = next_match(I, W, pattern, string, flags, pos, adv)
+        if m is None:
+            break
+        out.append(m)
+        pos, adv = m.e, m.e == m.s
+    return out
+
+
+def _norm(pattern, flags):
+    if isinstance(pattern, re.Pattern):
+        return pattern.pattern, int(flags) | (pattern.flags & ~re.UNICODE)
+    if not isinstance(pattern, str):
+        raise Unsupported("symbolic regex pattern")
+    return pattern, int(flags)
+
+
+def _slice(string, a, b):
+    cs = chars(string)
+    return mk(cs[a:b])
+
+
+def _group(m, i):
+    if i == 0:
+        return _slice(m.string, m.s, m.e)
+    span = m.groups_[i - 1]
+    return None if span is None else _slice(m.string, span[0], span[1])
+
+
+def regex_split(I, W, pattern, string, maxsplit=0, flags=0):
+    pattern, flags = _norm(pattern, flags)
+    out = []
+    last = 0
+    for m in all_matches(I, W, pattern, string, flags, maxsplit):
+        out.append(_slice(string, last, m.s))
+        for i in range(len(m.groups_)):
+            out.append(_group(m, i + 1))
+        last = m.e
+    out.append(_slice(string, last, len(chars(string))))
+    return out
+
+
+def regex_findall(I, W, pattern, string, flags=0):
+    pattern, flags = _norm(pattern, flags)
+    out = []
+    for m in all_matches(I, W, pattern, string, flags):
+        k = len(m.groups_)
+        if k == 0:
+            out.append(_group(m, 0))
+        elif k == 1:
+            g = _group(m, 1)
+            out.append("" if g is None else g)
+        else:
+            out.append(tuple("" if _group(m, i + 1) is None else _group(m, i + 1) for i in range(k)))
+    return out
+
+
+def _expand(m, repl):
+    """template expansion for a plain-string replacement (\\1, \\g<1>, \\g<name>, escapes \\n \\t \\\\)"""
+    if not isinstance(repl, str):
+        raise Unsupported("regex replacement that is not a concrete string")
+    out = ()
+    i = 0
+    while i < len(repl):
+        ch = repl[i]
+        if ch != "\\":
+            out += (ch,)
+            i += 1
+            continue
+        i += 1
+        if i >= len(repl):
+            raise Unsupported("bad regex replacement template")
+        c = repl[i]
+        if c.isdigit():
+            j = i
+            while j < len(repl) and repl[j].isdigit() and j - i < 2:
+                j += 1
+            g = _group(m, int(repl[i:j]))
+            out += chars(g) if g is not None else ()
+            i = j
+        elif c == "g" and i + 1 < len(repl) and repl[i + 1] == "<":
+            j = repl.index(">", i)
+            name = repl[i + 2:j]
+            gi = int(name) if name.isdigit() else m.gnames[name]
+            g = _group(m, gi)
+            out += chars(g) if g is not None else ()
+            i = j + 1
+        elif c in "ntrfv\\":
+            out += ({"n": "\n", "t": "\t", "r": "\r", "f": "\f", "v": "\v", "\\": "\\"}[c],)
+            i += 1
+        else:
+            raise Unsupported(f"regex replacement escape \\{c}")
+    return out
+
+
+def regex_sub(I, W, pattern, repl, string, count=0, flags=0, want_n=False):
+    pattern, flags = _norm(pattern, flags)
+    out = ()
+    last = 0
+    cs = chars(string)
+    ms = all_matches(I, W, pattern, string, flags, count)
+    for m in ms:
+        out += tuple(cs[last:m.s]) + _expand(m, repl)
+        last = m.e
+    out += tuple(cs[last:])
+    res = mk(out)
+    return (res, len(ms)) if want_n else res
 
 
 class Matcher:
@@ -122,22 +271,16 @@ class Matcher:
         op, av = items[i]
         rest = lambda p, g: self.seq(items, i + 1, p, g, k)
         cs, n = self.cs, self.n
-        if op is C.LITERAL:
+        if op is C.LITERAL and not (self.flags & re.IGNORECASE):
             if pos < n and self.lit(cs[pos], av):
                 return rest(pos + 1, groups)
             return None
-        if op is C.NOT_LITERAL:
-            if pos < n and self.lit(cs[pos], av, True):
-                return rest(pos + 1, groups)
-            return None
-        if op is C.ANY:
-            if pos < n and (self.flags & re.DOTALL or self.test(cs[pos], lambda ch: ch != "\n")):
-                return rest(pos + 1, groups)
-            return None
-        if op is C.IN:
-            f = class_pred(av)
-            if pos < n and self.test(cs[pos], f, ("re", id(av))):
-                return rest(pos + 1, groups)
+        if op is C.LITERAL or op is C.NOT_LITERAL or op is C.ANY or op is C.IN:
+            if pos < n:
+                f = node_pred(items[i], self.flags & _FLAGS_OK)
+                ck = ("re", id(av) if op is C.IN else av, str(op), self.flags)
+                if self.test(cs[pos], f, ck):
+                    return rest(pos + 1, groups)
             return None
         if op is C.BRANCH:
             for alt in av[1]:
@@ -208,6 +351,12 @@ class Matcher:
                     ok = pos == n or self.test(cs[pos], lambda ch: ch == "\n")
                 else:
                     ok = pos == n or (pos == n - 1 and self.test(cs[pos], lambda ch: ch == "\n"))
+            elif av is C.AT_BOUNDARY or av is C.AT_NON_BOUNDARY:
+                wrx = re.compile(r"\w", self.flags & (re.ASCII | re.UNICODE))
+                isw = lambda ch: wrx.fullmatch(ch) is not None
+                before = pos > 0 and self.test(cs[pos - 1], isw, ("re-w", self.flags & re.ASCII))
+                after = pos < n and self.test(cs[pos], isw, ("re-w", self.flags & re.ASCII))
+                ok = (before != after) == (av is C.AT_BOUNDARY)
             else:
                 raise Unsupported(f"regex anchor {av}")
             return rest(pos, groups) if ok else None
@@ -222,10 +371,7 @@ def regex_once(I, W, kind, pattern, string, flags):
             pattern = pattern.pattern
         else:
             raise Unsupported("symbolic regex pattern")
-    if flags & ~(re.MULTILINE | re.UNICODE | re.DOTALL):
-        raise Unsupported(f"regex flags {flags}")
-    if isinstance(string, str) and True:
-        pass
+    check_flags(flags)
     cs = chars(string)
     n = len(cs)
     prog = parsed(pattern, flags)
